@@ -95,7 +95,13 @@ class Rule(JupyterMixin):
             rule_text.append(characters * (width - rule_text.cell_len), self.style)
         elif self.align == "right":
             title_text.truncate(width - 2, overflow="ellipsis")
-            rule_text.append(characters * (width - title_text.cell_len - 1), self.style)
+            side_width = width - title_text.cell_len - 1
+            rule_text.append(
+                set_cell_size(
+                    characters * (side_width // chars_len + 1), side_width
+                ),
+                self.style,
+            )
             rule_text.append(" ")
             rule_text.append(title_text)
 
